@@ -250,7 +250,8 @@ func c13RunD(rec *vcommon.Rec) {
 				a2.pause()
 				a2.judged = true
 				_ = a2.s.client.Close()
-				pump(open("B2: reuses the slot of A2, which was closed 25 s after the listener was created"))
+				// the same peer comes back at once: same address, same slot, while the record of its earlier session still waits to expire
+				pump(openAt(a2.s.idx, "B2: reuses the slot of A2 from A2's own address; A2 was closed 25 s after the listener was created"))
 			}
 			if time.Since(t0) > 200*time.Second {
 				rec.Inconclusive(fmt.Sprintf("c13d: expiry pass %d was not observed within 200 s", pass), desc)
